@@ -1164,6 +1164,7 @@ class Client:
         key_prefix: bytes = b"",
         expire: Optional[int] = None,
     ) -> dict[Key, Any]:
+        keys = list(keys)  # iterated twice below; may be a one-shot iterator
         prefixed_keys = [self.check_key(k, key_prefix=key_prefix) for k in keys]
         remapped_keys = dict(zip(prefixed_keys, keys))
 
